@@ -135,6 +135,9 @@ func CheckWire(tap []Ev, facts []StreamFacts) (viol []string, projections int, n
 				if state == "reset" {
 					bad("%s id %d c->s #%d: second reset", f.Conn, f.ID, e.Seq)
 				}
+				if i == 0 {
+					bad("%s id %d c->s #%d: reset for a stream that was never opened on the wire (a stream opens with one header-only envelope)", f.Conn, f.ID, e.Seq)
+				}
 				if !f.CallerReset {
 					bad("%s id %d c->s #%d: caller reset a stream whose context never ended", f.Conn, f.ID, e.Seq)
 				}
